@@ -71,7 +71,12 @@ static void op_ra (int n, char **tok)
   char *ret = NULL; int e = 0, aborted = 0;
   call_begin ();
   jmp_buf jb; abort_jmp = &jb;
-  if (!setjmp (jb)) { in_call = 1; errno = ENTRY_ERRNO; ret = crypt_ra ((char *)p0, (char *)s0, &objs[id].ra_data, &objs[id].ra_size); e = errno; last_errno = e; in_call = 0; }
+  /* "I": the application keeps phrase and setting in the block's own `input` and `setting` members (crypt.h provides them for that) and passes
+     those pointers; only possible when the caller's block is a whole struct crypt_data and the strings fit */
+  const char *pa = (const char *)p0, *sa = (const char *)s0;
+  if (n > 4 && !strcmp (tok[4], "I") && before && size_before >= (int)sizeof (struct crypt_data) && p0 && s0 && pl < sizeof ((struct crypt_data *)0)->input && sl < sizeof ((struct crypt_data *)0)->setting)
+    { struct crypt_data *db = before; memcpy (db->input, p0, pl + 1); memcpy (db->setting, s0, sl + 1); pa = db->input; sa = db->setting; }
+  if (!setjmp (jb)) { in_call = 1; errno = ENTRY_ERRNO; ret = crypt_ra (pa, sa, &objs[id].ra_data, &objs[id].ra_size); e = errno; last_errno = e; in_call = 0; }
   else { in_call = 0; aborted = 1; }
   struct crypt_data *d = objs[id].ra_data;
   struct lent *le = d ? lfind (d) : NULL;
